@@ -101,5 +101,15 @@ def start_cmd(rng, o):
     if r == 0: return "newini %d" % o
     if r == 1: return "newkf %d %d %d" % (o, rng.choice([61, 58, 32]), rng.choice([35, 59]))
     if r == 2: return "newempty %d" % o
-    content = rng.choice([b"k1=file1\n[A]\nk2 = \"q v\" # c\nk1=a1\n[B]\nk3=3\n", b"k1=x\nk1=y\n[A]\n[E]\n[A]\nk4=Yes\n", b"# only a comment\n", b""])
-    return parse_cmd(o, b"/d/start.conf", content, b"=", b"#")
+    return parse_cmd(o, b"/d/start.conf", rng.choice(START_FILES), b"=", b"#")
+
+START_FILES = [b"k1=file1\n[A]\nk2 = \"q v\" # c\nk1=a1\n[B]\nk3=3\n", b"k1=x\nk1=y\n[A]\n[E]\n[A]\nk4=Yes\n", b"# only a comment\n", b"",
+               # sections only (no group-less key): the internal list of sections starts with a named one
+               b"[A]\nk1=a\n[B]\nk2=b\n", b"[B]\n[A]\nk1=1\nk2=2\nk3=3\nk4=4\n[C c]\nk1=c\n", b"[A]\n", b"[A]\nk1=1\n[A]\nk2=2\n"]
+
+def start_cmds(rng, o):
+    """like start_cmd, and also objects that are the result of a merge of two parsed files"""
+    if rng.random() < 0.8: return [start_cmd(rng, o)]
+    a, b = rng.choice(START_FILES), rng.choice(START_FILES)
+    return [parse_cmd(o + 7, b"/d/m1.conf", a, b"=", b"#"), parse_cmd(o + 8, b"/d/m2.conf", b, b"=", b"#"),
+            "merge %d %d %d" % (o, o + 7, o + 8)]
